@@ -13,28 +13,30 @@ open Llir Llir.Whole
     operand of a function body is a global variable or a function of the module and is written at the type of a reference to it). -/
 theorem whole_roundtrip (useHex : Int → Bool) (m : Module)
     (h2 : Core2.WF ⟨m.typedefs, m.globals⟩) (hs : Core2.sortDefs m.typedefs = m.typedefs)
-    (h3 : ∀ f ∈ m.funcs, Core3.wfIn (genvOf m.globals m.funcs) f = true) (hm : Meta.wf m.md = true) (hx : crossOK m = true) :
+    (h3 : ∀ f ∈ m.funcs, Core3.wfIn (genvOf m.globals m.funcs) f = true) (h3m : ∀ f ∈ m.funcs, Core3.mdWF useHex f = true)
+    (hm : Meta.wf m.md = true) (hx : crossOK m = true) :
     parse (printModule useHex m) = some m :=
-  parse_print useHex m h2 hs h3 hm hx
+  parse_print useHex m h2 hs h3 h3m hm hx
 
 /-- and the printed text is a fixpoint -/
 theorem whole_fixpoint (useHex : Int → Bool) (m : Module)
     (h2 : Core2.WF ⟨m.typedefs, m.globals⟩) (hs : Core2.sortDefs m.typedefs = m.typedefs)
-    (h3 : ∀ f ∈ m.funcs, Core3.wfIn (genvOf m.globals m.funcs) f = true) (hm : Meta.wf m.md = true) (hx : crossOK m = true) :
+    (h3 : ∀ f ∈ m.funcs, Core3.wfIn (genvOf m.globals m.funcs) f = true) (h3m : ∀ f ∈ m.funcs, Core3.mdWF useHex f = true)
+    (hm : Meta.wf m.md = true) (hx : crossOK m = true) :
     (parse (printModule useHex m)).map (printModule useHex) = some (printModule useHex m) := by
-  rw [parse_print useHex m h2 hs h3 hm hx]; rfl
+  rw [parse_print useHex m h2 hs h3 h3m hm hx]; rfl
 
 /-- non-vacuity: the samples of the three fragments put together — a recursive struct type `%N`, a packed constant global `@g`, a global
-    `@c = global i32 5`, the function `@f` of `core3Sample`, a function `@h` whose body loads from and stores to `@c`, converts the address of the
+    `@c = global i32 5`, the function `@f` of `core3Sample`, a function `@h` whose body loads from and stores to `@c` (the load carries the attachments `!dbg !7, !\31a !4294967296`, the `ret` carries `!x !0`), converts the address of the
     function `@f`, calls it and calls the declared function `@ext`, the declaration `declare void @ext(i32 %0)`, and the metadata section `metaSample` — form a module that meets every hypothesis -/
 def hSample : Core3.Func :=
   ⟨.int 32, [104], [],
-   [⟨.id 0, [⟨some (.id 1), 23, [.flags [1], .ty (.int 32), .tyval (.ptr (.int 32) 0) (.glob [99]), .okw none, .align (some 4)], .none⟩,
-            ⟨some (.id 2), 39, [.tyval (.ptr (.func (.int 32) (.cons (.int 32) (.cons (.int 32) .nil)) false) 0) (.glob [102]), .ty (.int 64)], .none⟩,
-            ⟨none, 24, [.flags [1], .tyval (.int 32) (.loc (.id 1)), .tyval (.ptr (.int 32) 0) (.glob [99]), .okw none, .align none], .none⟩,
-            ⟨some (.id 3), 75, [.ty (.int 32), .val (.glob [102]), .tyvals [(.int 32, .loc (.id 1)), (.int 32, .const (.int 7))]], .none⟩,
-            ⟨none, 74, [.val (.glob [101, 120, 116]), .tyvals [(.int 32, .loc (.id 3))]], .none⟩],
-      ⟨none, 26, [.retv (some (.int 32, .loc (.id 1)))], .none⟩⟩]⟩
+   [⟨.id 0, [⟨some (.id 1), 23, [.flags [1], .ty (.int 32), .tyval (.ptr (.int 32) 0) (.glob [99]), .okw none, .align (some 4)], .none, [([100, 98, 103], 7), ([49, 97], 4294967296)]⟩,
+            ⟨some (.id 2), 39, [.tyval (.ptr (.func (.int 32) (.cons (.int 32) (.cons (.int 32) .nil)) false) 0) (.glob [102]), .ty (.int 64)], .none, []⟩,
+            ⟨none, 24, [.flags [1], .tyval (.int 32) (.loc (.id 1)), .tyval (.ptr (.int 32) 0) (.glob [99]), .okw none, .align none], .none, []⟩,
+            ⟨some (.id 3), 75, [.ty (.int 32), .val (.glob [102]), .tyvals [(.int 32, .loc (.id 1)), (.int 32, .const (.int 7))]], .none, []⟩,
+            ⟨none, 74, [.val (.glob [101, 120, 116]), .tyvals [(.int 32, .loc (.id 3))]], .none, []⟩],
+      ⟨none, 26, [.retv (some (.int 32, .loc (.id 1)))], .none, [([120], 0)]⟩⟩]⟩
 
 /-- `declare void @ext(i32 %0)` -/
 def extSample : Core3.Func := ⟨.void, [101, 120, 116], [(.int 32, .id 0)], []⟩
@@ -53,8 +55,13 @@ example : Core2.sortDefs wholeSample.typedefs = wholeSample.typedefs := by
   simp [wholeSample, sample, Core2.sortDefs, Natsort.sort, Natsort.insert]
 example : ∀ f ∈ wholeSample.funcs, Core3.wfIn (genvOf wholeSample.globals wholeSample.funcs) f = true := by
   intro f hf; simp [wholeSample] at hf; rcases hf with rfl | rfl | rfl <;> decide +kernel
+example : ∀ f ∈ wholeSample.funcs, Core3.mdWF IntLit.hexChoice f = true := by
+  intro f hf; simp [wholeSample] at hf; rcases hf with rfl | rfl | rfl <;> decide +kernel
 example : Meta.wf wholeSample.md = true := by decide +kernel
 example : crossOK wholeSample = true := by decide +kernel
+
+/-- and an attachment that names a metadata ID the module does not define is rejected: `ret i32 %1, !x !0` without the definition `!0` -/
+example : parse (printModule (fun _ => false) { wholeSample with md := ⟨[], [⟨7, true, .nil⟩, ⟨4294967296, false, .nil⟩]⟩ }) = none := by decide +kernel
 
 /-- and a function body that mentions a global the module does not define is rejected: `@h` without the global `@c` -/
 example : parse (printModule (fun _ => false) { wholeSample with globals := sample.globals }) = none := by decide +kernel
